@@ -575,6 +575,27 @@ partial def anteLoop (stdin : IO.FS.Stream) (a : AState) : IO Unit := do
       for d in dumpAnte a' do
         IO.println ("| " ++ d)
       anteLoop stdin a'
+    else if l.startsWith "jail " then
+      -- the staking module jails a validator: not bonded, jailed, tokens as they are (a history item of the application-level engine)
+      let i := natTok (((l.drop 5).trimAscii.toString).drop 1).toString
+      match getVal a.s.vals i with
+      | some v =>
+        if v.jailed then
+          IO.println "< err"
+          for d in dumpAnte a do
+            IO.println ("| " ++ d)
+          anteLoop stdin a
+        else
+          let a' : AState := { a with s := { a.s with vals := a.s.vals.set i { v with bonded := false, jailed := true } } }
+          IO.println "< ok"
+          for d in dumpAnte a' do
+            IO.println ("| " ++ d)
+          anteLoop stdin a'
+      | none =>
+        IO.println "< err"
+        for d in dumpAnte a do
+          IO.println ("| " ++ d)
+        anteLoop stdin a
     else if l.startsWith "setprices " then
       -- governance sets the settlement gas prices: "denom:price,denom:price"; the list is stored as given, and the first configured
       -- denomination is the first one listed
